@@ -66,6 +66,10 @@ type Agent struct {
 	connectionState ConnectionState
 	gatheringState  GatheringState
 
+	// checkingEpoch is bumped by Restart so that a restart issued while the
+	// agent is still Checking also restarts the initial checking deadline.
+	checkingEpoch uint64
+
 	mDNSMode MulticastDNSMode
 	mDNSName string
 	mDNSConn *mdns.Conn
@@ -682,6 +686,7 @@ func (a *Agent) startConnectivityChecks(isControlling bool, remoteUfrag, remoteP
 
 func (a *Agent) connectivityChecks() { //nolint:cyclop
 	lastConnectionState := ConnectionState(0)
+	lastCheckingEpoch := uint64(0)
 	checkingDuration := time.Time{}
 	checkingTimeout := a.initialCheckingTimeout()
 
@@ -697,9 +702,11 @@ func (a *Agent) connectivityChecks() { //nolint:cyclop
 				// In the future it may be restarted though
 				return
 			case ConnectionStateChecking:
-				// We have just entered checking for the first time so update our checking timer
-				if lastConnectionState != a.connectionState {
+				// We have just entered checking for the first time, or were restarted
+				// while checking, so update our checking timer
+				if lastConnectionState != a.connectionState || lastCheckingEpoch != a.checkingEpoch {
 					checkingDuration = time.Now()
+					lastCheckingEpoch = a.checkingEpoch
 				}
 
 				// The initial checking deadline has elapsed, so set the connection to Failed.
@@ -1984,6 +1991,7 @@ func (a *Agent) Restart(ufrag, pwd string) error { //nolint:cyclop
 		a.remoteUfrag = ""
 		a.remotePwd = ""
 		a.gatheringState = GatheringStateNew
+		a.checkingEpoch++
 		a.checklist = make([]*CandidatePair, 0)
 		a.pairsByID = make(map[uint64]*CandidatePair)
 		a.pendingBindingRequests = make([]bindingRequest, 0)
